@@ -140,7 +140,19 @@ def run(ctx):
                           f"{what}: {model.show(t)} and {model.show(prev[1])} denote the same product but are different objects",
                           {"term": t, "earlier": prev[1]})
 
+    firstd, firstp = {}, {}
     for i in range(n):
+        if i in (n // 3, (2 * n) // 3):
+            # a program with its own unit system declares a new fundamental dimension at run time: every
+            # dimension interned so far is re-keyed; everything evaluated before must stay the object that the
+            # same expression denotes afterwards (the run-wide maps span the declaration)
+            dimension_and_prefix_trees(ctx, env, rng, max(100, n // 60), firstd, firstp)
+            k = ctx.get("fundamental_dimensions_declared_mid_run")
+            nd = Dimension.define(f"zqc02dim{ctx.shard}x{k}", f"Zq{ctx.shard}x{k}")
+            nu = Unit.define(nd, f"zqc02dimunit{ctx.shard}x{k}", f"zqc02du{ctx.shard}x{k}")
+            mdl.fresh.append(nu)
+            gen.n_fresh = len(mdl.fresh)
+            ctx.count("fundamental_dimensions_declared_mid_run")
         mixed_ok = rng.random() < 0.15
         t = gen.tree(rng.randint(1, 4), mixed_ok)
         ctx.count("evaluations")
@@ -193,7 +205,7 @@ def run(ctx):
         if rng.random() < 0.3 and not nf.mixed:
             laws(ctx, env, rng, real, t, gen)
 
-    dimension_and_prefix_trees(ctx, env, rng, max(200, n // 20))
+    dimension_and_prefix_trees(ctx, env, rng, max(200, n // 20), firstd, firstp)
     sweep(ctx, env)
     ctx.count("distinct_normal_forms", len(first))
     ctx.count("max_table_size/units", 0)
@@ -241,13 +253,20 @@ def laws(ctx, env, rng, x, tx, gen):
                           {"x": tx, "y": ty, "z": tz, "a": a, "b": b, "n": n})
 
 
-def dimension_and_prefix_trees(ctx, env, rng, n):
+def trimmed(vec):
+    """exponent vector without trailing zeros: the same key before and after a new fundamental dimension"""
+    v = list(vec)
+    while v and v[-1] == 0:
+        v.pop()
+    return tuple(v)
+
+
+def dimension_and_prefix_trees(ctx, env, rng, n, firstd, firstp):
     m = env.m
     Dimension, Prefix = m.Dimension, m.Prefix
     Number, Identity = m.Number, m.IdentityPrefix
     dims = sorted(Dimension._by_name.values(), key=lambda d: d.name)
     width = len(Number.exponents)
-    firstd = {}
     for _ in range(n):
         ctx.count("dimension_trees")
         ops = rng.randint(1, 5)
@@ -290,9 +309,10 @@ def dimension_and_prefix_trees(ctx, env, rng, n):
         if tuple(d.exponents) != tuple(vec):
             ctx.violation("C02:dimension-differs-from-model", f"{''.join(desc)} = {d!r}, model {vec}", {"desc": desc})
             continue
-        prev = firstd.setdefault(tuple(vec), d)
-        if prev is not d:
-            ctx.violation("C02:same-dimension-different-objects", f"{''.join(desc)}", {"desc": desc})
+        prev = firstd.setdefault(trimmed(vec), (d, "".join(desc), width))
+        if prev[0] is not d:
+            ctx.violation("C02:same-dimension-different-objects", f"{''.join(desc)} (evaluated with {width} fundamental dimensions) and {prev[1]} "
+                          f"(evaluated with {prev[2]}) denote one dimension but are different objects", {"desc": desc, "earlier": prev[1]})
         x = d
         y = rng.choice(dims)
         a, b = rng.randint(-3, 3), rng.randint(-3, 3)
@@ -301,7 +321,6 @@ def dimension_and_prefix_trees(ctx, env, rng, n):
                 and (x**a) ** b is x ** (a * b) and (x**k).root(k) is x):
             ctx.violation("C02:dimension-law", f"a group law fails for {''.join(desc)} with {y.name}, a={a}, b={b}, k={k}", {"desc": desc})
     prefixes = [env.pools.prefixes[nm] for nm in env.pools.prefix_names]
-    firstp = {}
     for _ in range(n):
         ctx.count("prefix_trees")
         p = rng.choice(prefixes)
